@@ -79,7 +79,8 @@ MULTIPART = ['ok', 'no_cid', 'attach_first', 'bad_charset',
              'empty', 'root_only', 'root_only_charset']
 # PEP 3333: PATH_INFO and QUERY_STRING may be omitted when empty
 # ... and a gateway that de-chunks uploads says so (wsgi.input_terminated)
-ENV_MODES = ['full', 'full', 'full', 'omit_qs', 'mount_point', 'terminated']
+ENV_MODES = ['full', 'full', 'full', 'omit_qs', 'mount_point', 'terminated',
+             'script_root']
 
 
 def _rclasses(rng, seed):
@@ -102,6 +103,7 @@ def _rclasses(rng, seed):
     out.append(['wsdl'])
     out.append(['wsdl', 'badhost'])
     out.append(['badreturn'])
+    out.append(['badreturn', 'multi'])
     for verb in ('GET', 'PUT', 'HEAD'):
         out.append(['verb', verb])
     for cs in ('latin-1', 'bogus-charset', 'utf-16'):
@@ -338,6 +340,10 @@ def run_case(case):
         req.env = dict(req.env or {}, SCRIPT_NAME='/app', PATH_INFO=None)
         if req.qs == '':
             req.env['QUERY_STRING'] = None
+    elif em == 'script_root' and req.path == '/' and in_prot != 'httprpc':
+        # SCRIPT_NAME '/' (some gateways say that for the root) and nothing
+        # left for PATH_INFO
+        req.env = dict(req.env or {}, SCRIPT_NAME='/', PATH_INFO=None)
     elif em == 'terminated':
         req.env = dict(req.env or {})
         req.env['wsgi.input_terminated'] = True
@@ -347,7 +353,8 @@ def run_case(case):
     lint = bool(case.get('lint')) and cl not in ('empty', 'garbage') and \
         case['plan_kind'] != 'none' and \
         case['consumer'][0] != 'drain_no_close' and \
-        case.get('env_mode') != 'mount_point'   # (the linter indexes PATH_INFO)
+        case.get('env_mode') not in ('mount_point', 'script_root')
+    # (the linter indexes PATH_INFO and refuses SCRIPT_NAME '/')
     if lint:
         # (it also lints the gateway: an empty CONTENT_LENGTH, a read()
         # returning None and never calling close() are faults of OUR side,
@@ -364,12 +371,16 @@ def run_case(case):
         if isinstance(o.exc, AssertionError):
             tb = o.exc.__traceback__
             fn = '?'
+            last = None
             while tb is not None:
-                if tb.tb_frame.f_code.co_filename.endswith('validate.py') \
+                last = tb.tb_frame.f_code.co_filename
+                if last.endswith('validate.py') \
                         and tb.tb_frame.f_code.co_name != 'assert_':
                     fn = tb.tb_frame.f_code.co_name
                 tb = tb.tb_next
             r = judge(case, uni, req, o, ml, cl, simfiles, handles)
+            if not (last or '').endswith('validate.py'):
+                return r        # an AssertionError of the application's own
             r['violations'].append({
                 'sig': 'W-lint|%s|%s' % (fn, _rsig(case)),
                 'what': 'wsgiref.validate refuses what the application did '
